@@ -11,7 +11,6 @@ a plain split + urllib.parse.parse_qsl for URLs, xml.etree for SOAP envelopes.
 """
 import base64
 import hashlib
-import html as html_mod
 import json
 import string
 import urllib.parse as up
@@ -660,7 +659,6 @@ def _soap_object(spec):
     from saml2.profile import ecp, paos
 
     r = random.Random(spec["seed"])
-    txt, tag = None, None
     kind = spec["kind"]
     issuer = saml.Issuer(text="https://sp.c14.example/" + gen_xml_text(r, 8))
     if kind == 0:
@@ -685,7 +683,7 @@ def _soap_object(spec):
 
 
 def run_impl(case):
-    from saml2 import BINDING_HTTP_ARTIFACT, BINDING_HTTP_POST, BINDING_HTTP_REDIRECT, BINDING_SOAP, pack, soap
+    from saml2 import BINDING_HTTP_ARTIFACT, BINDING_HTTP_POST, BINDING_HTTP_REDIRECT, BINDING_SOAP, pack
     from saml2.entity import create_artifact
     from saml2.httpbase import HTTPBase
 
